@@ -61,8 +61,8 @@ type World struct {
 	// group by the current controller incarnation
 	LockT0 map[int]time.Time
 
-	podSeq  int
-	nodeSeq int
+	podSeq  map[int]int // per group, so that changes inside one group do not rename another group's objects
+	nodeSeq map[int]int
 	Scans   int
 	Log     []Action // reified history
 	Last    *ScanRecord
@@ -232,10 +232,13 @@ func qtyB(b int64) resource.Quantity    { return *resource.NewQuantity(b, resour
 // NewNodeFor creates the Node object a kubelet would register for the instance.
 func (w *World) NewNodeFor(g int, inst *sim.Instance, created time.Time) *v1.Node {
 	gs := &w.Cfg.Groups[g]
-	w.nodeSeq++
+	if w.nodeSeq == nil {
+		w.nodeSeq = map[int]int{}
+	}
+	w.nodeSeq[g]++
 	n := &v1.Node{
 		ObjectMeta: metav1.ObjectMeta{
-			Name:              fmt.Sprintf("n%d-%03d", g, w.nodeSeq),
+			Name:              fmt.Sprintf("n%d-%03d", g, w.nodeSeq[g]),
 			Labels:            map[string]string{gs.Opts.LabelKey: gs.Opts.LabelValue, "kubernetes.io/hostname": inst.ID},
 			CreationTimestamp: metav1.NewTime(created.Truncate(time.Second)),
 			Annotations:       map[string]string{},
@@ -268,8 +271,11 @@ type PodSpec struct {
 
 // NewPod materialises a PodSpec.
 func (w *World) NewPod(s PodSpec) *v1.Pod {
-	w.podSeq++
-	p := &v1.Pod{ObjectMeta: metav1.ObjectMeta{Name: fmt.Sprintf("p%04d", w.podSeq), Namespace: "ns", Annotations: map[string]string{}}}
+	if w.podSeq == nil {
+		w.podSeq = map[int]int{}
+	}
+	w.podSeq[s.Group]++
+	p := &v1.Pod{ObjectMeta: metav1.ObjectMeta{Name: fmt.Sprintf("p%d-%04d", s.Group, w.podSeq[s.Group]), Namespace: "ns", Annotations: map[string]string{}}}
 	split := s.Split
 	if split < 1 {
 		split = 1
@@ -575,6 +581,17 @@ func (w *World) Apply(a Action) (rec *ScanRecord, ok bool) {
 			w.A.Kill(instanceIDOf(n.Spec.ProviderID))
 			w.K.RemoveNode(a.Node)
 			w.dropPodsOn(a.Node)
+		} else {
+			ok = false
+		}
+	case "resizeNode": // allocatable multiplied by N (N = 0: shrunk to almost nothing)
+		if n := w.K.Nodes[a.Node]; n != nil {
+			g := w.GroupOfNode(n)
+			cpu, mem := int64(1), int64(1)
+			if a.N > 0 && g >= 0 {
+				cpu, mem = w.Cfg.Groups[g].NodeCPU*int64(a.N), w.Cfg.Groups[g].NodeMem*int64(a.N)
+			}
+			n.Status.Allocatable = v1.ResourceList{v1.ResourceCPU: qty(cpu), v1.ResourceMemory: qtyB(mem)}
 		} else {
 			ok = false
 		}
